@@ -470,7 +470,7 @@ func (e *env) observe(after string, x *expect) {
 			e.fail("after %s: %q holds bytes that were never handed to APPEND: uid %d %s", after, recovery, r.uid, short(r.raw))
 		}
 
-		if other, dup := seen[s.identity()]; dup {
+		if other, dup := seen[s.identity()]; dup && !s.Damaged {
 			e.fail("after %s: %q holds message %s twice (uid %d and uid %d): %s", after, recovery, s.identity(), other, r.uid, e.describe(now[recovery]))
 		}
 
@@ -719,6 +719,9 @@ func (e *env) doAppend(kind, box, lit string, plan map[string][]int) {
 
 		if !e.held(sp.identity()) {
 			x.add[recovery] = append(x.add[recovery], want{exact: lit, what: fmt.Sprintf("the message %s refused by the remote (%s failed)", sp, method)})
+		} else if sp.Damaged {
+			// no hash, no duplicate detection: a second copy is not judged
+			x.add[recovery] = append(x.add[recovery], want{exact: lit, optional: true, what: fmt.Sprintf("another copy of the damaged message %s", sp)})
 		}
 
 	case kindOfFail == fSize:
@@ -742,6 +745,14 @@ func (e *env) newSpec(t *rapid.T) spec {
 	e.nextBase++
 
 	s := spec{Base: e.nextBase, Multi: rapid.IntRange(0, 3).Draw(t, "multi") == 0}
+
+	if rapid.IntRange(0, 5).Draw(t, "damaged") == 0 {
+		s.Damaged = true
+		e.labels["damaged-message"] = true
+
+		return s
+	}
+
 	if rapid.IntRange(0, 3).Draw(t, "varied") == 0 {
 		s.HV = rapid.IntRange(0, nHV-1).Draw(t, "hv")
 		s.UV = rapid.IntRange(0, nUV-2).Draw(t, "uv")
